@@ -1,0 +1,11 @@
+//go:build verif
+
+package v120
+
+// Contracts for the verification framework in /verif (comment-only file; compiled
+// only with -tags verif, where it contributes nothing but these comments).
+
+//@ // ---- declared effects (checked per call instruction by the effect checker; anything not listed is effect-free) ----
+//@ effects CreateUpgradeHandler auth.setaccount
+//@ effects ModifyVestingAccountsState auth.setaccount
+//@ effects upgradeVestingAccounnt auth.setaccount
